@@ -141,6 +141,8 @@ def proof_race_cases(tier, seed):
             extra = {'query_at_backup': True}
         else:
             extra = {}
+        if fam == 'tx':
+            extra['hold_any_request_job'] = True     # whatever worker job a request submits (reads, level computations ...) may be held
         cases.append({**extra, 'seed': rng.randrange(1 << 30), 'nclients': 1, 'nscripts': 3, 'judge': ['C11'], 'script': script, 'family': fam,
                       'flushkind': 'none', 'flushvec': None, 'policy': rng.choice(('random', 'lazy', 'eager')), 'p': 0.3, 'latency': None,
                       'latency_by_method': ({'rest/block': (4, 8, 12), 'getblockhash': (2, 5)} if fam == 'hdr' else
@@ -173,7 +175,7 @@ def run(tier, seed, replay=None):
                           'step:reorg': 20, 'step:forced_reorg': 15, 'merkle_cache_hits': 10, 'query:header_proof': 30, 'concurrent_queries_judged': 20000, 'queries_overlapping_a_truncation': 300,
                           'query:tsc': 30, 'step:big_block_replaced_by_big_block': 5,
                           'header_proofs_refused_by_short_read_guard': 2, 'jobs_held_at_start': 40,
-                          'reorgs_with_requests_sent_at_their_first_backup': 8, 'step:reorg_to_smaller_blocks': 3}.items():
+                          'reorgs_with_requests_sent_at_their_first_backup': 4, 'step:reorg_to_smaller_blocks': 3}.items():
         rep.floor(name, c[name], minimum)
     return rep.finish(
         rule='the C07 scenarios (chains of 20-44 blocks, a quarter with a 200-420 tx block so that the cached per-block path runs) with a '
